@@ -265,6 +265,38 @@ def errno_atoms(f):
     return out
 
 
+def _eval_errno(e, k):
+    """Truth of condition `e` when errno == k, or None when it depends on anything else."""
+    ERR = ("*", ("call", "__errno_location"))
+    e = e.strip() if e is not None else None
+    if e is None:
+        return None
+    if e.cls == "UnaryOperator" and e.op == "!":
+        v = _eval_errno(e.kid(0), k)
+        return None if v is None else not v
+    if e.cls == "BinaryOperator" and e.op in ("&&", "||"):
+        a, b = _eval_errno(e.kid(0), k), _eval_errno(e.kid(1), k)
+        if e.op == "&&":
+            if a is False or b is False:
+                return False
+            return True if (a is True and b is True) else None
+        if a is True or b is True:
+            return True
+        return False if (a is False and b is False) else None
+    if e.cls == "BinaryOperator" and e.op in ("==", "!=", "<", "<=", ">", ">="):
+        l, r = norm(e.kid(0)), norm(e.kid(1))
+        op = e.op
+        if r == ERR and l[0] == "c":
+            l, r = r, l
+            op = {"<": ">", ">": "<", "<=": ">=", ">=": "<="}.get(op, op)
+        if l == ERR and r[0] == "c" and isinstance(r[1], int):
+            return {"==": k == r[1], "!=": k != r[1], "<": k < r[1], "<=": k <= r[1], ">": k > r[1], ">=": k >= r[1]}[op]
+        return None
+    if e.cls == "CallExpr" and e.callee == "__builtin_expect":
+        return _eval_errno(e.arg(0), k)
+    return None
+
+
 def n2_n3(prog, rep, up, L):
     u = prog.unit(up)
     sysc = SYSCALL[up]
@@ -279,19 +311,64 @@ def n2_n3(prog, rep, up, L):
         return
     rb = rearm[0].block.id
     ks = errno_atoms(f)
-    got = set()
-    for k, b, succ in ks:
-        if succ is not None and (succ == rb or rb in f.reach_from(b.id, stop=()) and _edge_reaches(f, succ, rb)):
-            got.add(k)
-    neg = [b for b in f.blocks.values() if b.cond is not None and len(b.succs) == 2 and any(
-        Lx == ("*", ("call", "__errno_location")) and Rx[0] == "c" and opx not in ("==",) for opx, Lx, Rx, _, _ in cond_atoms(b.cond, True))
-        and b.succs[0] is not None and (b.succs[0] == rb or _edge_reaches(f, b.succs[0], rb))]
-    rep.check(not neg, "N2", "%s: only equalities of errno lead to the re-arm" % f.name, (neg[0].cond.where if neg else f.loc),
-              "a test of errno other than `errno == K` has its true edge leading to the re-registration: every error but one is then retried for ever",
-              function=f.name, construct="wouldblock-polarity")
-    rep.check(got == WOULDBLOCK[up], "N2", "%s would-block set" % f.name, f.loc,
-              "errno values routed to the re-arm: %s; required exactly %s (EAGAIN/EWOULDBLOCK=11, EINTR=4, ECONNABORTED=103)" % (sorted(got), sorted(WOULDBLOCK[up])),
-              function=f.name, construct="wouldblock")
+    # the same set, decided value by value: with errno known, every comparison of errno is decided and the walk from the first
+    # of them either arrives at the re-registration or does not (`a && b` chains, negations and nestings all reduce to this)
+    ERR = ("*", ("call", "__errno_location"))
+    eblocks = [b for b in f.blocks.values() if b.cond is not None and (
+        (b.term_cls == "SwitchStmt" and norm(b.cond) == ERR) or
+        (len(b.succs) == 2 and b.term_cls != "SwitchStmt" and (_eval_errno(b.cond, EAGAIN) is not None)))]
+    switch_form = any(b.term_cls == "SwitchStmt" for b in eblocks)
+    order = {bid: i for i, bid in enumerate(f.rpo())}
+    eblocks.sort(key=lambda b: order.get(b.id, 1 << 30))
+    universe = sorted(set([EAGAIN, EINTR, ECONNABORTED, 104, 32, 110, 9]) | set(k for k, _, _ in ks))
+    walked = set()
+    if eblocks:
+        for k in universe:
+            outcomes = set()
+            work = [eblocks[0].id]
+            seen = set()
+            while work:
+                nb = work.pop()
+                if nb is None or nb in seen:
+                    continue
+                seen.add(nb)
+                if nb == rb:
+                    outcomes.add("rearm")
+                    continue
+                blk = f.blocks[nb]
+                if blk.noreturn or any(e.cls == "ReturnStmt" for e in blk.elems) or not blk.succs:
+                    outcomes.add("other")
+                    continue
+                if blk.cond is not None and blk.term_cls == "SwitchStmt" and norm(blk.cond) == ERR:
+                    from ..dataflow import edge_kinds
+                    nxt = None
+                    for (cnd, kind), sx in zip(edge_kinds(blk), blk.succs):
+                        if isinstance(kind, tuple) and kind[0] == "case" and kind[1] == k:
+                            nxt = sx
+                    if nxt is None:
+                        for (cnd, kind), sx in zip(edge_kinds(blk), blk.succs):
+                            if isinstance(kind, tuple) and kind[0] in ("default", "none"):
+                                nxt = sx
+                    work.append(nxt)
+                    continue
+                if blk.cond is not None and len(blk.succs) == 2:
+                    dec = _eval_errno(blk.cond, k)
+                    if dec is not None:
+                        work.append(blk.succs[0] if dec else blk.succs[1])
+                        continue
+                work.extend(x for x in blk.succs if x is not None)
+            if outcomes == {"rearm"}:
+                walked.add(k)
+        want = WOULDBLOCK[up]
+    else:
+        rep.bad("N2", "%s would-block set" % f.name, f.loc, "no test of errno found in the handler: a would-block answer ends the request", function=f.name, construct="wouldblock")
+        want = None
+    if eblocks:
+        rep.check(walked == want, "N2", "%s: answers retried, decided per errno value" % f.name, eblocks[0].cond.where,
+                  "with errno set to each of %s in turn, the walk from the first errno test arrives at the re-registration for %s; required exactly %s "
+                  "(EAGAIN/EWOULDBLOCK=11, EINTR=4, ECONNABORTED=103): a would-block answer not retried ends the request with an error that did not "
+                  "happen, any other answer retried is retried for ever" % (universe, sorted(walked), sorted(want)),
+                  function=f.name, construct="wouldblock-values")
     # every other -1 goes to the failure completion, not to the re-arm: the false edge of the last errno test must not reach the re-arm block
     # without passing a completion
     sc = list(f.calls(sysc))[0]
